@@ -19,7 +19,7 @@ other than the prescribed one for every model that uses that combination."""
 import re
 
 from ..facts import extract_split, units_matching, Program, AnalysisBroken, sx_find, sx_str, sx_enums
-from ..match import emptied_before, ev_write, is_call, call_args, call_obj, field_of, var_of, guard_blocks, branch_edges, implied_edges, only_via
+from ..match import value_sets, known_edges, emptied_before, ev_write, is_call, call_args, call_obj, field_of, var_of, guard_blocks, branch_edges, implied_edges, only_via
 
 UNITS = r"/Simbody/src/(SimbodyMatterSubsystemRep|MobilizedBody|Motion)\.cpp$"
 HDR = r"/Simbody/(src/(SimbodyMatterSubsystemRep|SimbodyTreeState|MobilizedBodyImpl|MotionImpl)\.h|include/simbody/internal/Motion\.h)$"
@@ -71,12 +71,14 @@ def run(chk, tier, overlays=()):
     apply_(chk, P)
     lockers(chk, P)
     forward(chk, P)
+    varstage(chk, P)
     chk.floor("PARTITION", 40)
     chk.floor("LOCKMAP", 8)
     chk.floor("FILL", 20)
     chk.floor("APPLY", 12)
     chk.floor("LOCK", 10)
     chk.floor("FORWARD", 12)
+    chk.floor("VARSTAGE", 8)
     chk.assumptions += ["the values computed by Motion objects, the known/unknown udot partition inside the O(n) forward dynamics and the reported motion multipliers are numerical and not decided"]
 
 
@@ -251,33 +253,56 @@ def lockmap(chk, P):
             for x in en:
                 out.append((fl, x))
         return out
+    LEVELS_ALL = {"NoLevel", "Acceleration", "Velocity", "Position"}
+    # value sets of the lock-level local: every form of the test (if-chain, switch, nested / early-continue) is read alike;
+    # the loop re-declares the local each iteration, which resets the set
+    vs = value_sets(f, lambda x: isinstance(x, list) and len(x) == 2 and x[0] == "var" and x[1] in LL, LEVELS_ALL,
+                    kill=lambda e: e["k"] == "decl" and e["var"] in LL)
     for level, table in sorted(LOCKMAP.items()):
-        gb = guard_blocks(f, lambda c, level=level: isinstance(c, list) and c[0] == "op" and c[1] == "==" and var_of(c[2]) in LL and ("SimTK::Motion::" + level) in sx_enums(c[3]), 0)
-        chk.judge(len(gb) == 1, "LOCKMAP", "%s:branch" % level, f.loc, "one branch for lock level %s" % level)
-        if len(gb) != 1:
-            continue
-        g = next(iter(gb))
         got = {}
+        sites = []
         for b, i, e in asg:
-            if g in dom.get(b, ()):
+            if level in vs[b] and vs[b] != LEVELS_ALL and "NoLevel" not in vs[b]:
+                sites.append((b, i, e))
                 for fl, x in pairs(e):
                     got.setdefault(fl, set()).add(x)
-        chk.judge(got == table, "LOCKMAP", "%s:methods" % level, "%s:%d" % (f.file, f.blocks[g]["ev"][0]["line"] if f.blocks[g]["ev"] else f.line),
+        chk.judge(bool(sites), "LOCKMAP", "%s:branch" % level, f.loc, "method assignments executed when the lock level is %s: %d" % (level, len(sites)))
+        if not sites:
+            continue
+        chk.judge(got == table, "LOCKMAP", "%s:methods" % level, "%s:%d" % (f.file, sites[0][2]["line"]),
                   "lock at %s level sets %s (documented: %s)" % (level, {k: sorted(v) for k, v in got.items()}, {k: sorted(v) for k, v in table.items()}))
-        # Prescribed only under a non-zero locked value
-        for b, i, e in asg:
-            if g in dom.get(b, ()) and ("Prescribed" in [x for _, x in pairs(e)]) and level != "Position":
-                nz = guard_blocks(f, lambda c: isinstance(c, list) and c[0] in ("op", "opc") and c[1] == "!=" and bool(sx_find(c, lambda y: y[0] == "mem" and _last(y[2]) == "lockedUs")), 0)
-                chk.judge(any(x in dom.get(b, ()) for x in nz), "LOCKMAP", "%s:Prescribed-iff-nonzero-lockedUs" % level, "%s:%d" % (f.file, e["line"]),
+        # Prescribed only under a non-zero locked value (directly, or in a local predicate / lambda that scans lockedUs for a non-zero entry)
+        for b, i, e in sites:
+            if ("Prescribed" in [x for _, x in pairs(e)]) and level != "Position":
+                def nonzero(c):
+                    return isinstance(c, list) and c[0] in ("op", "opc") and c[1] == "!=" and bool(sx_find(c, lambda y: y[0] == "mem" and _last(y[2]) == "lockedUs"))
+                direct = only_via(f, b, implied_edges(f, [nonzero]))
+                # through a helper: the branch tests the result of a local callable whose body returns true only under the non-zero test
+                via = False
+                for bb, blk in f.blocks.items():
+                    t = blk.get("term")
+                    c = t.get("cond") if t else None
+                    if c is None:
+                        continue
+                    for y in sx_find(c, lambda y: y[0] in ("opc", "call") and True):
+                        fid = None
+                        for _b, _i, ce in f.calls():
+                            if ce.get("x") == y and ce.get("fid"):
+                                fid = ce["fid"]
+                        for g in P.by_id.get(fid, []) if fid else []:
+                            rt = [r for _, _, r in g.events(lambda r: r["k"] == "ret" and isinstance(r.get("val"), list) and r["val"] == ["lit", "true"])]
+                            if rt and all(only_via(g, rb, implied_edges(g, [nonzero])) for rb, _, r in g.events(lambda r: r in rt)):
+                                if only_via(f, b, implied_edges(f, [lambda cc, y=y: cc == y])):
+                                    via = True
+                chk.judge(direct or via, "LOCKMAP", "%s:Prescribed-iff-nonzero-lockedUs" % level, "%s:%d" % (f.file, e["line"]),
                           "Prescribed is chosen only when a locked value in lockedUs is non-zero")
     # precedence: calcAllMethods only on the not-locked side, under hasMotion && !disabled, args in order
     cam = [(b, i, e) for b, i, e in f.calls() if str(e.get("fn", "")).endswith("Motion::calcAllMethods")]
     chk.shape(len(cam) == 1, "LOCKMAP", "one-calcAllMethods", f.loc, "found %d" % len(cam))
     if len(cam) == 1:
         b, i, e = cam[0]
-        locked = branch_edges(f, lambda c: isinstance(c, list) and c[0] == "op" and c[1] == "!=" and var_of(c[2]) in LL and "SimTK::Motion::NoLevel" in sx_enums(c[3]), 0)
-        p = f.path_exists(None, lambda q: q is e, lambda q: False, avoid_edges={(bb, f.blocks[bb]["succ"][1]) for bb, _ in locked}) if locked else ()
-        chk.judge(bool(locked) and p is None, "LOCKMAP", "lock-overrides-Motion", "%s:%d" % (f.file, e["line"]), "the Motion is consulted only when the mobilizer is not locked")
+        chk.judge(vs[b] == {"NoLevel"}, "LOCKMAP", "lock-overrides-Motion", "%s:%d" % (f.file, e["line"]),
+                  "the Motion is consulted only when the mobilizer is not locked (lock levels possible at the call: %s)" % sorted(vs[b]))
         e1 = implied_edges(f, [lambda c: isinstance(c, list) and c[0] == "call" and c[1].endswith("::hasMotion")])
         e2 = implied_edges(f, [lambda c: isinstance(c, list) and c[0] == "un" and c[1] == "!" and bool(sx_find(c, lambda y: y[0] == "mem" and _last(y[2]) == "prescribedMotionIsDisabled"))])
         chk.judge(only_via(f, b, e1) and only_via(f, b, e2), "LOCKMAP", "Motion-only-if-present-and-enabled", "%s:%d" % (f.file, e["line"]),
@@ -327,12 +352,17 @@ def fill(chk, P):
         is_pool = lambda y: y[0] == "mem" and y[2] == pool
         touches_pool = lambda x: bool(x is not None and (sx_find(x, is_pool) or any(derives(y[1], is_pool) for y in sx_find(x, lambda y: y[0] == "var"))))
         mfield = lvl + "Method"
-        g = guard_blocks(f, lambda c: isinstance(c, list) and c[0] == "op" and c[1] == "==" and _memname(c[2]) == mfield and "SimTK::Motion::Prescribed" in sx_enums(c[3]), 0)
-        chk.judge(len(g) >= 1, "FILL", "%s:guard:%s==Prescribed" % (fname, mfield), f.loc, "the pool is filled under %s == Prescribed" % mfield)
-        g0 = min(g, key=lambda b: len(dom.get(b, ()))) if g else None
+        # value sets of the three method fields and of the lock level (every form of the tests is read alike)
+        METHODS = {"NoMethod", "Zero", "Discrete", "Prescribed", "Free", "Fast"}
+        vm = {m: value_sets(f, lambda x, m=m: _memname(x) == m, METHODS) for m in ("qMethod", "uMethod", "udotMethod")}
+        def is_locklevel(x):
+            return isinstance(x, list) and bool(x) and x[0] in ("opc", "idx") and bool(sx_find(x, lambda y: y[0] == "mem" and _last(y[2]) == "mobilizerLockLevel"))
+        vl = value_sets(f, is_locklevel, {"NoLevel", "Acceleration", "Velocity", "Position"})
+        presc = {b for b in f.blocks if vm[mfield][b] == {"Prescribed"}}
+        chk.judge(bool(presc), "FILL", "%s:guard:%s==Prescribed" % (fname, mfield), f.loc, "the pool is filled under %s == Prescribed" % mfield)
         # every pool reference is inside the guard
         refs = [(b, i, e) for b, i, e in f.events(lambda e: e["k"] == "mem" and e["field"] == pool)]
-        chk.judge(bool(refs) and all(g0 is not None and (g0 == b or g0 in dom.get(b, ())) for b, _, _ in refs), "FILL", "%s:pool-only-under-guard" % fname, f.loc,
+        chk.judge(bool(refs) and all(b in presc for b, _, _ in refs), "FILL", "%s:pool-only-under-guard" % fname, f.loc,
                   "%s is touched %d times, all under the guard" % (_last(pool), len(refs)))
         # offset
         offs = set()
@@ -344,13 +374,12 @@ def fill(chk, P):
         chk.judge(bool(base_vars) and not others, "FILL", "%s:offset=%s" % (fname, FIRST[lvl]), f.loc,
                   "pool subscripts use %s; the offset must come from %s" % (sorted(offs), FIRST[lvl]))
         # lock branch
-        lk = guard_blocks(f, lambda c: isinstance(c, list) and c[0] in ("op", "opc") and c[1] == "!=" and bool(sx_find(c, lambda y: y[0] == "mem" and _last(y[2]) == "mobilizerLockLevel")) and
-                          "SimTK::Motion::NoLevel" in sx_enums(c), 0)
-        lk = {b for b in lk if g0 is not None and g0 in dom.get(b, ())}
-        chk.judge(len(lk) == 1, "FILL", "%s:lock-branch" % fname, f.loc, "one branch for a locked mobilizer inside the guard")
+        lk = {b for b in presc if vl[b] and "NoLevel" not in vl[b]}          # blocks that execute only for a locked mobilizer
+        unlocked = {b for b in presc if vl[b] == {"NoLevel"}}
+        chk.judge(bool(lk) and bool(unlocked), "FILL", "%s:lock-branch" % fname, f.loc, "a branch for a locked mobilizer and one for a Motion inside the guard")
         copies = []
         for b, i, e in f.events(lambda e: e["k"] == "assign" and e.get("rhs") is not None and touches_pool(e["lhs"])):
-            if any(x == b or x in dom.get(b, ()) for x in lk):
+            if b in lk:
                 copies.append(e)
         ok = len(copies) == 1
         det = "no copy found"
@@ -370,22 +399,23 @@ def fill(chk, P):
         chk.judge(ok, "FILL", "%s:locked-values<-%s" % (fname, locked), f.loc, det)
         # Motion branch: tabled routine under tabled guards, destination the pool
         calls = [(b, i, e) for b, i, e in f.calls() if re.search(r"MotionImpl::calcPrescribed\w+$", str(e.get("fn", "")))]
-        qg = guard_blocks(f, lambda c: isinstance(c, list) and c[0] == "op" and c[1] == "==" and _memname(c[2]) == "qMethod" and "SimTK::Motion::Prescribed" in sx_enums(c[3]), 0)
-        ug = guard_blocks(f, lambda c: isinstance(c, list) and c[0] == "op" and c[1] == "==" and _memname(c[2]) == "uMethod" and "SimTK::Motion::Prescribed" in sx_enums(c[3]), 0)
-        if lvl == "q":
-            qg = set()
-        if lvl in ("q", "u"):
-            ug = set()
         seen = set()
         for b, i, e in calls:
             nth = sum(1 for _b, _i, _e in calls if _e["line"] <= e["line"] and _e["fn"] == e["fn"])
-            chk.judge(g0 is not None and g0 in dom.get(b, ()) and not any(x == b or x in dom.get(b, ()) for x in lk), "FILL", "%s:%s:on-Motion-branch@%d" % (fname, _last(e["fn"]), nth), "%s:%d" % (f.file, e["line"]),
+            chk.judge(b in unlocked, "FILL", "%s:%s:on-Motion-branch@%d" % (fname, _last(e["fn"]), nth), "%s:%d" % (f.file, e["line"]),
                       "Motion routines are called only for a prescribed, not locked mobilizer")
-            under = tuple(l for l, gs in (("q", qg), ("u", ug)) if any(x == b or x in dom.get(b, ()) for x in gs))
+            higher = [l for l in ("q", "u") if LEVELS.index(l) < LEVELS.index(lvl)]
+            under = tuple(l for l in higher if vm[l + "Method"][b] == {"Prescribed"})
+            # the routine of the HIGHEST prescribed level is required: (q,) beats (u,)
+            if len(under) > 1:
+                under = under[:1]
+            # and the lower-priority case must really exclude the higher one
+            chosen = LEVELS.index(under[0]) if under else LEVELS.index(lvl)
+            amb = [l for l in higher if LEVELS.index(l) < chosen and "Prescribed" in vm[l + "Method"][b]]
             want = MOTION_CALL[lvl].get(under)
             seen.add(under)
-            chk.judge(_last(e["fn"]) == want, "FILL", "%s:prescribed-by-%s->%s@%d" % (fname, "+".join(under) or "own-level", want, nth), "%s:%d" % (f.file, e["line"]),
-                      "calls %s where %s is required" % (_last(e["fn"]), want))
+            chk.judge(_last(e["fn"]) == want and not amb, "FILL", "%s:prescribed-by-%s->%s@%d" % (fname, "+".join(under) or "own-level", want, nth), "%s:%d" % (f.file, e["line"]),
+                      "calls %s where %s is required%s" % (_last(e["fn"]), want, ("; the case does not exclude a prescribed %s level" % amb[0]) if amb else ""))
             # destination: last argument is the pool, or a local that later feeds multiplyByNInv(.., local-derived, pool)
             dst = call_args(e)[-1]
             if touches_pool(dst):
@@ -455,10 +485,12 @@ def apply_(chk, P):
         okr = len(rets) == 1
         if okr:
             for k in ("Pres", "Zero"):
-                def iszero(c, k=k):
-                    return isinstance(c, list) and c[0] == "op" and c[1] == "==" and isinstance(c[3], list) and c[3][0] == "lit" and c[3][1] == "0" and var_of(c[2]) in decls and \
+                def cnt(c, k=k):
+                    return isinstance(c, list) and c[0] == "op" and isinstance(c[3], list) and c[3][0] == "lit" and c[3][1] == "0" and var_of(c[2]) in decls and \
                         decls[var_of(c[2])].get("init") is not None and bool(sx_find(decls[var_of(c[2])]["init"], lambda y: y[0] == "call" and y[1].endswith("::getTotalNum" + k + X)))
-                okr = okr and only_via(f, rets[0][0], implied_edges(f, [iszero]))
+                iszero = lambda c: cnt(c) and c[1] == "=="
+                nonzero = lambda c: cnt(c) and c[1] in ("!=", ">")
+                okr = okr and only_via(f, rets[0][0], known_edges(f, iszero, nonzero))
         chk.judge(okr, "APPLY", "%s:skip-only-if-nothing-to-apply" % fname, f.loc, "`return false` (no write) is reached only when both the prescribed and the zero count are 0")
     # count getters
     for lst in sorted(LIST.values()):
@@ -493,13 +525,13 @@ def lockers(chk, P):
         okl = okl and var_of(lv[0][2]["rhs"]) in LV and f.path_exists(None, "exit", lambda q: q is lv[0][2]) is None
         chk.judge(okl, "LOCK", "%s:level-recorded" % fname, f.loc, "stores the requested level for this mobilizer on every path")
         dom = f.dominators()
+        # which levels can hold when a block executes: value sets of the level parameter (if-chain, switch, early return ... all read alike)
+        LEVELS_ALL = {"NoLevel", "Acceleration", "Velocity", "Position"}
+        vs = value_sets(f, lambda x: isinstance(x, list) and len(x) == 2 and x[0] == "var" and x[1] in LV, LEVELS_ALL)
         for level, (arr, src) in sorted(LOCK_WRITES.items()):
-            def islevel(c):
-                return isinstance(c, list) and c[0] == "op" and c[1] == "==" and var_of(c[2]) in LV and bool(sx_enums(c[3]))
-            edges = {(bb, tt) for bb, tt in implied_edges(f, [islevel]) if ("SimTK::Motion::" + level) in sx_enums(_full_cond(f, bb))}
             def haslocked(x):
                 return bool(x is not None and sx_find(x, lambda y: y[0] == "mem" and _last(y[2]).startswith("locked")))
-            ws = [(b, i, e) for b, i, e in f.events(lambda e: e["k"] == "assign" and (haslocked(e["lhs"]) or haslocked(e.get("rhs")))) if only_via(f, b, edges)]
+            ws = [(b, i, e) for b, i, e in f.events(lambda e: e["k"] == "assign" and (haslocked(e["lhs"]) or haslocked(e.get("rhs")))) if level in vs[b] and vs[b] != LEVELS_ALL]
             # a chained assignment q[qx] = iv.lockedQs[qx] = v shows up twice; keep the one whose left side is the locked array when there is one
             if any(haslocked(e["lhs"]) for _, _, e in ws):
                 ws = [(b, i, e) for b, i, e in ws if haslocked(e["lhs"])]
@@ -567,10 +599,89 @@ def forward(chk, P):
             chk.judge(len(cs) == 1 and _last(cs[0]["fn"]) == nm, "FORWARD", "CustomImpl::%sVirtual->%s" % (nm, nm), f.loc, "calls %s" % [_last(c["fn"]) for c in cs])
 
 
+STAGES = ["Empty", "Topology", "Model", "Instance", "Time", "Position", "Velocity", "Dynamics", "Acceleration", "Report"]
+# the realization stage at which the result of a Motion routine is put into its pool (FILL): a state variable the routine reads
+# must invalidate that stage or an earlier one, otherwise a change of the variable leaves the pool -- and what prescribeQ/U apply -- stale
+ROUTINE_STAGE = {"Position": "Time", "PositionDot": "Position", "Velocity": "Position",
+                 "PositionDotDot": "Dynamics", "VelocityDot": "Dynamics", "Acceleration": "Dynamics",
+                 "getLevel": "Instance", "getLevelMethod": "Instance"}
+VAR_READ = re.compile(r"::(getVar|getDiscreteVariable|updVar|updDiscreteVariable)$")
+VAR_ALLOC = re.compile(r"::(allocVar|allocateDiscreteVariable)$")
+
+
+def varstage(chk, P):
+    chk.rule("VARSTAGE", "every state variable that a built-in Motion's calcPrescribedX / getLevel / getLevelMethod routine reads is allocated with an invalidation stage no "
+             "later than the stage whose realization puts that routine's result into the prescribed-value pool (Position: Time; PositionDot, Velocity: Position; "
+             "PositionDotDot, VelocityDot, Acceleration: Dynamics; level and method: Instance) -- so changing the variable on a realized State re-fills the pool before prescribeQ/U use it")
+    # the FILL table is the source of the stage: check that it still says what ROUTINE_STAGE assumes
+    for fname, (lvl, pool, _l) in sorted(FILL.items()):
+        want = {"realizeTime": "Time", "realizePosition": "Position", "realizeDynamics": "Dynamics"}[fname]
+        f = _one(chk, P, "SimTK::MobilizedBodyImpl::" + fname)
+        if not f:
+            continue
+        called = sorted({_last(e["fn"])[len("calcPrescribed"):] for _, _, e in f.calls() if re.search(r"Motion(Impl)?::calcPrescribed\w+$", str(e.get("fn", "")))})
+        chk.judge(bool(called) and all(ROUTINE_STAGE.get(c) == want for c in called), "VARSTAGE", "%s:fills-at-%s" % (fname, want), f.loc, "Motion routines called from %s: %s" % (fname, called))
+    classes = sorted(c for c in P.subclasses("SimTK::MotionImpl"))
+    chk.shape(len(classes) >= 3, "VARSTAGE", "MotionImpl-subclasses", "", "subclasses found: %s" % [_last(c) for c in classes])
+    nvars = 0
+    for cls in classes:
+        ms = P.methods_of(cls)
+        # allocation sites of this class: field <- allocVar(..., Stage)
+        alloc = {}
+        for m in ms:
+            for b, i, e in m.events():
+                w = ev_write(e)
+                if not w or not field_of(w[0]) or w[2] is None:
+                    continue
+                cs = sx_find(w[2], lambda y: y[0] == "call" and VAR_ALLOC.search(str(y[1])))
+                if cs:
+                    st = [_last(x) for x in sx_enums(cs[0]) if x.startswith("SimTK::Stage::")]
+                    alloc.setdefault(field_of(w[0]), []).append((st, "%s:%d" % (m.file, e["line"])))
+
+        def reads(m, depth=2, seen=()):
+            out = set()
+            for _, _, e in m.calls():
+                if VAR_READ.search(str(e.get("fn", ""))):
+                    for a in call_args(e):
+                        if field_of(a):
+                            out.add(field_of(a))
+                c = e.get("fid")
+                if depth > 0 and c and c not in seen:
+                    for g in P.by_id.get(c, []):
+                        if g.cls == cls:
+                            out |= reads(g, depth - 1, seen + (m.id,))
+            return out
+        for m in sorted(ms, key=lambda m: m.id):
+            nm = _last(m.name)
+            mm = re.match(r"(?:calcPrescribed(\w+)|(getLevel|getLevelMethod))Virtual$", nm)
+            if not mm:
+                continue
+            key = mm.group(1) or mm.group(2)
+            if key not in ROUTINE_STAGE:
+                continue
+            rs = sorted(reads(m))
+            if not rs:
+                chk.ok("VARSTAGE", "%s::%s:no-state-variable" % (_last(cls), nm), m.loc, "reads no state variable (parameters are construction-time members)")
+                continue
+            for fld in rs:
+                nvars += 1
+                sites = alloc.get(fld, [])
+                inst = "%s::%s<-%s" % (_last(cls), nm, _last(fld))
+                if not chk.shape(len(sites) == 1 and len(sites[0][0]) == 1, "VARSTAGE", inst + ":allocation-site", m.loc, "allocation sites of %s with their stage: %s" % (_last(fld), sites)):
+                    continue
+                st = sites[0][0][0]
+                chk.judge(STAGES.index(st) <= STAGES.index(ROUTINE_STAGE[key]), "VARSTAGE", inst + ":invalidates<=%s" % ROUTINE_STAGE[key], sites[0][1],
+                          "%s is allocated with invalidation stage %s but calcPrescribed%s is evaluated when Stage::%s is realized: after a change of the variable on a realized State the "
+                          "pool keeps the old prescribed value" % (_last(fld), st, key, ROUTINE_STAGE[key]))
+    chk.shape(nvars >= 1, "VARSTAGE", "some-variable-read", "", "%d (routine, variable) pairs" % nvars)
+
+
 _R = "Simbody/src/SimbodyMatterSubsystemRep.cpp"
 _M = "Simbody/src/MobilizedBody.cpp"
 _I = "Simbody/src/MotionImpl.h"
 MUTATIONS = [
+    dict(name="Motion::Steady rate variable invalidates only Velocity", arm=True, file=_I,
+         old="            allocVar(state, defaultU);", new="            allocVar(state, defaultU, Stage::Velocity);", expect="VARSTAGE:SteadyImpl::calcPrescribedVelocityVirtual<-currentU"),
     dict(name="case Zero of the uMethod switch appends to the udot list (copy-paste)", arm=True, file=_R,
          old="                ic.zeroU.push_back(UIndex(ux+i));", new="                ic.zeroUDot.push_back(UIndex(ux+i));", expect="PARTITION:u:Zero->zeroU"),
     dict(name="pool offset of prescribed u taken after the indices were appended", file=_R,
